@@ -78,9 +78,12 @@ def self_concat_family(rng):
     for hi, holder in enumerate(holders):
         for ri, rk in enumerate(rhs_kinds):
             for fi, form in enumerate(forms):
-                r = rng.fork(f"sc{hi}-{ri}-{fi}")
+              for base_len in (2, 20):      # scale: a shortcut that only applies to long lists must not alias either
+                if base_len == 20 and (ri + fi) % 2 == 1:
+                    continue
+                r = rng.fork(f"sc{hi}-{ri}-{fi}-{base_len}")
                 prog = [("func", "দুই", [], [("return", G.lst(G.num(7), G.num(8)))]),
-                        ("decl", "ক", G.lst(G.num(1), G.num(2)))]
+                        ("decl", "ক", G.lst(*[G.num(i + 1) for i in range(base_len)]))]
                 other = None
                 if holder == "slot":
                     prog.append(("decl", "ম", G.lst(G.var("ক"), G.num(0)))); other = G.idx(G.var("ম"), G.num(0))
